@@ -31,8 +31,9 @@ type anchorEntry struct {
 }
 
 type anchorFile struct {
-	Note      string                 `json:"note"`
-	Functions map[string]anchorEntry `json:"functions"` // key: rel|recv|name
+	Note       string                 `json:"note"`
+	Functions  map[string]anchorEntry `json:"functions"` // key: rel|recv|name
+	Migrations []string               `json:"migrations"`
 }
 
 func fingerprint(c *core.Ctx) map[string]anchorEntry {
@@ -92,7 +93,16 @@ func fingerprint(c *core.Ctx) map[string]anchorEntry {
 
 // WriteAnchors records the functions of the current tree as the baseline for rename detection.
 func WriteAnchors(c *core.Ctx, verifDir string) error {
-	af := anchorFile{Note: "functions of the tree the rules were confirmed on; used only to recognise a renamed function (same package/receiver, same parameter and result types, similar callees) so that it is analysed under the name the rules know", Functions: fingerprint(c)}
+	var migs []string
+	if ents, err := os.ReadDir(filepath.Join(c.RepoDir, "internal/storage/bucket/migrations")); err == nil {
+		for _, e := range ents {
+			if e.IsDir() {
+				migs = append(migs, e.Name())
+			}
+		}
+	}
+	sort.Strings(migs)
+	af := anchorFile{Migrations: migs, Note: "functions of the tree the rules were confirmed on; used only to recognise a renamed function (same package/receiver, same parameter and result types, similar callees) so that it is analysed under the name the rules know", Functions: fingerprint(c)}
 	b, err := json.MarshalIndent(af, "", " ")
 	if err != nil {
 		return err
@@ -136,6 +146,12 @@ func NormaliseRenames(c *core.Ctx, verifDir string) []string {
 	var base anchorFile
 	if json.Unmarshal(b, &base) != nil || len(base.Functions) == 0 {
 		return nil
+	}
+	if len(base.Migrations) > 0 {
+		BaselineMigrations = map[string]bool{}
+		for _, m := range base.Migrations {
+			BaselineMigrations[m] = true
+		}
 	}
 	cur := fingerprint(c)
 	type cand struct {
